@@ -339,7 +339,7 @@ fn arb_op() -> impl Strategy<Value = Op> {
 pub fn run(ctx: &Ctx) {
     ctx.rule("operation sequences (<=60 ops, <=5 users) over create/remove user, verify (right / wrong / another user's password / unknown uid), create_session (default / lifetime 0 = already expired / 3600), refresh, invalidate, invalidate_user_session, get_uid_by_token, exists and requests to a with_auth_route route on a real App (no cookie / garbage / any token ever issued), with and without pepper, default and zero refresh lifetime; after every step every token ever issued is looked up and compared with a reference model. Non-trivial: a stale (expired / invalidated / replaced / removed-user) token is used after it died, or >=2 users hold sessions; distinct by sequence");
     ctx.assume("only lifetimes 0 and >=3600 s are used, so expectations never depend on the clock; Argon2 with default parameters");
-    let cases = ctx.tier.pick(800u32, 32000u32);
+    let cases = ctx.tier.pick(1600u32, 32000u32);
     let nshards = 16;
     crate::engine::shards(nshards, |i| {
         pt::run(
